@@ -3263,15 +3263,13 @@ func (c *BytecodeCompiler) localVariableAssignment(name string, operator *token.
 	case token.EQUAL_OP:
 		return c.setLocal(name, right, location, valueIsIgnored)
 	case token.COLON_EQUAL:
-		local := c.defineLocal(name, nil)
-		c.compileNodeWithResult(right)
+		local := c.defineLocalWithInitialiser(name, nil, right)
 		if local == nil {
 			return valueIgnoredToResult(valueIsIgnored)
 		}
 		return c.emitSetLocal(location.StartPos.Line, local.index, valueIsIgnored)
 	case token.COLON_COLON_EQUAL:
-		local := c.defineLocal(name, location)
-		c.compileNodeWithResult(right)
+		local := c.defineLocalWithInitialiser(name, location, right)
 		if local == nil {
 			return valueIgnoredToResult(valueIsIgnored)
 		}
@@ -3759,16 +3757,17 @@ func (c *BytecodeCompiler) optimiseIfLessEqual(jumpOp bytecode.OpCode, condition
 func (c *BytecodeCompiler) compileValueDeclarationNode(node *ast.ValueDeclarationNode, valueIsIgnored bool) expressionResult {
 	initialised := node.Initialiser != nil
 
+	if initialised {
+		local := c.defineLocalWithInitialiser(identifierToName(node.Name), node.Location(), node.Initialiser)
+		if local == nil {
+			return valueIgnoredToResult(valueIsIgnored)
+		}
+		return c.emitSetLocal(node.Location().StartPos.Line, local.index, valueIsIgnored)
+	}
+
 	local := c.defineLocal(identifierToName(node.Name), node.Location())
 	if local == nil {
 		return valueIgnoredToResult(valueIsIgnored)
-	}
-	if initialised {
-		c.compileNodeWithResult(node.Initialiser)
-	}
-
-	if initialised {
-		return c.emitSetLocal(node.Location().StartPos.Line, local.index, valueIsIgnored)
 	}
 
 	if !valueIsIgnored {
@@ -5255,13 +5254,17 @@ func (c *BytecodeCompiler) compileVariablePatternDeclarationWithoutValue(pattern
 func (c *BytecodeCompiler) compileVariableDeclarationNode(node *ast.VariableDeclarationNode, valueIsIgnored bool) expressionResult {
 	initialised := node.Initialiser != nil
 
+	if initialised {
+		local := c.defineLocalWithInitialiser(identifierToName(node.Name), node.Location(), node.Initialiser)
+		if local == nil {
+			return valueIgnoredToResult(valueIsIgnored)
+		}
+		return c.emitSetLocal(node.Location().StartPos.Line, local.index, valueIsIgnored)
+	}
+
 	local := c.defineLocal(identifierToName(node.Name), node.Location())
 	if local == nil {
 		return valueIgnoredToResult(valueIsIgnored)
-	}
-	if initialised {
-		c.compileNodeWithResult(node.Initialiser)
-		return c.emitSetLocal(node.Location().StartPos.Line, local.index, valueIsIgnored)
 	}
 
 	if !valueIsIgnored {
@@ -9413,6 +9416,21 @@ func (c *BytecodeCompiler) closeUpvaluesInScope(line int, scope *bytecodeScope) 
 func (c *BytecodeCompiler) getLocal(name string) *bytecodeLocal {
 	varScope := c.scopes.last()
 	return varScope.localTable[name]
+}
+
+// Register a local variable and compile its initialiser, leaving the value on the stack.
+// The new local is not visible in its own initialiser (`a := a + 1` in a nested scope
+// reads the outer `a`, just like in the type checker), unless the initialiser
+// is a closure literal, which may call itself recursively.
+func (c *BytecodeCompiler) defineLocalWithInitialiser(name string, location *position.Location, initialiser ast.ExpressionNode) *bytecodeLocal {
+	if closure, ok := initialiser.(*ast.ClosureLiteralNode); ok && !closure.Lambda {
+		local := c.defineLocal(name, location)
+		c.compileNodeWithResult(initialiser)
+		return local
+	}
+
+	c.compileNodeWithResult(initialiser)
+	return c.defineLocal(name, location)
 }
 
 // Register a local variable.
